@@ -685,6 +685,13 @@ def model_specs(draw, profile=None):
     for w in spec["inter"]:
         pairs = [(a, b) for a in pops for b in pops]
         data["iw"][w["name"]] = {"%s>%s" % (a, b): {"a": g.pick([0.0, 1.0, 0.5, 2.0])} for a, b in g.subset(pairs, min_size=1)}
+        if g.coin(0.3):
+            # interaction weights that change over time (entered for years; interpolated like any other databook series)
+            for key in list(data["iw"][w["name"]]):
+                if g.coin(0.6):
+                    ys = sorted({start + g.pick([0.0, 1.0, 2.5, 4.0, -3.0]) for _ in range(3)})
+                    data["iw"][w["name"]][key] = {"t": ys, "v": [g.pick([0.0, 1.0, 0.5, 2.0, 0.1]) for _ in ys]}
+            g.labels.add("interaction:time-varying")
     # ---- programs and instructions -------------------------------------------------------------------
     spec["progs"] = None
     spec["instr"] = None
